@@ -4,6 +4,7 @@ import (
 	"fmt"
 	"go/token"
 	"go/types"
+	"strings"
 
 	"golang.org/x/tools/go/ssa"
 
@@ -33,6 +34,8 @@ func runC20(r *engine.Run) {
 	r.Rule("SNAPSHOT-all", "GetLogs visits every slot of the ring: it traverses with ring.Do from the cursor, or with a loop counted up to the ring's Len()/the buffer size; a walk that stops at a sentinel (back at the cursor, first empty slot) is not accepted because it skips the slot it stops at once the ring is full; the visited non-nil slot values are stored into the slice GetLogs returns")
 	r.Rule("ORDER-advance", "Write stores the new entry into the slot at the cursor and then advances the cursor by exactly one (*ring.Ring).Next(), in that order, on every path that touches the ring")
 	r.Rule("PAIR-unlock", "every Lock/RLock of a mutex is followed on every path to a return of the acquiring function by the matching Unlock/RUnlock on the same mutex or by a deferred one registered on the path: no operation returns with the lock held (every later operation on the object would block)")
+	r.Rule("REF-pooled", "the byte view (Bytes()) of a pooled zap encoder buffer is only handed to calls while the function owns the buffer: it is never returned, stored, put into a map, sent, given to a goroutine, or used after a Free of that buffer")
+	r.Rule("WHO-filter", "the cores of a logger are combined by a plain zapcore.NewTee and core/logging builds no sampling or level-raising core (NewSampler*, NewIncreaseLevelCore, IncreaseLevel): every entry a logger accepts reaches the in-memory core")
 	r.NotDec = append(r.NotDec, "'exactly the most recent N, newest first' as a sequence property of GetLogs' index arithmetic")
 	const rule = "LOCK-ring"
 	entries := exportedEntries(r, rule, pkgLog, map[string]bool{"MemCore": true, "MemLogger": true})
@@ -81,6 +84,8 @@ func runC20(r *engine.Run) {
 	orderAdvance(r)
 	snapshotAll(r)
 	pairUnlock(r, "PAIR-unlock", funcsOfPkg(r, pkgLog), 2)
+	refPooled(r, "REF-pooled")
+	whoFilter(r, "WHO-filter")
 	snapshotCollects(r, "SNAPSHOT-all")
 	writeAtRoot(r, "AGREE-share")
 }
@@ -471,4 +476,133 @@ func writeAtRoot(r *engine.Run, rule string) {
 	if n < 2 {
 		r.Anchor(rule, fmt.Errorf("unresolved anchor: %d ring stores in MemCore.Write", n))
 	}
+}
+
+// refPooled: zap's encoders render into buffers of a process-wide pool
+// (buffer.Buffer); Bytes() is a view of the pooled memory. Once the buffer is
+// freed, any goroutine that logs gets it back and overwrites it. The dump may
+// therefore use the view only while it owns the buffer: the slice is handed to
+// calls (the writer), it is never returned or stored, and nothing uses it after
+// a Free of its buffer.
+func refPooled(r *engine.Run, rule string) {
+	n := 0
+	for _, f := range funcsOfPkg(r, pkgLog) {
+		if len(f.Blocks) == 0 {
+			continue
+		}
+		o := ord{}
+		engine.Instrs(f, func(in ssa.Instruction) {
+			c, ok := in.(*ssa.Call)
+			if !ok || !extCalleeIs(c, "go.uber.org/zap/buffer", "Buffer", "Bytes") {
+				return
+			}
+			n++
+			buf := c.Call.Args[0]
+			bad := ""
+			var frees []ssa.Instruction
+			deferredFree := false
+			engine.Instrs(f, func(in2 ssa.Instruction) {
+				ci, ok := in2.(ssa.CallInstruction)
+				if !ok {
+					return
+				}
+				if extCalleeIs(ci, "go.uber.org/zap/buffer", "Buffer", "Free") && len(ci.Common().Args) > 0 && ci.Common().Args[0] == buf {
+					if _, isDefer := in2.(*ssa.Defer); isDefer {
+						deferredFree = true
+					} else {
+						frees = append(frees, in2)
+					}
+				}
+			})
+			var visit func(v ssa.Value, depth int)
+			visit = func(v ssa.Value, depth int) {
+				if depth > 4 {
+					return
+				}
+				for _, ref := range engine.Referrers(v) {
+					switch x := ref.(type) {
+					case *ssa.Return:
+						bad = "is returned"
+						if deferredFree {
+							bad = "is returned while the buffer is freed by a deferred Free (the caller receives memory that is already back in the pool)"
+						}
+					case *ssa.Store:
+						if x.Val != v {
+							continue
+						}
+						if al, ok := x.Addr.(*ssa.Alloc); ok {
+							// a local cell (named result spilled because of a defer): follow its loads
+							for _, r2 := range engine.Referrers(al) {
+								if ld, ok := r2.(*ssa.UnOp); ok && ld.Op == token.MUL {
+									visit(ld, depth+1)
+								}
+							}
+							continue
+						}
+						bad = "is stored"
+					case *ssa.MakeInterface, *ssa.Slice, *ssa.Phi, *ssa.ChangeType, *ssa.Convert:
+						if _, isConv := x.(*ssa.Convert); isConv {
+							continue // string(b) copies
+						}
+						visit(x.(ssa.Value), depth+1)
+					case *ssa.MapUpdate, *ssa.Send:
+						bad = "is put into a map / sent on a channel"
+					case ssa.CallInstruction:
+						if _, isGo := x.(*ssa.Go); isGo {
+							bad = "is handed to a new goroutine"
+						}
+						for _, fr := range frees {
+							if engine.ReachableAfter(fr, x) {
+								bad = "is used after the buffer was freed"
+							}
+						}
+					}
+				}
+			}
+			visit(c, 0)
+			r.Check(bad == "", rule, o.next(fn(f)+"|buffer view"), r.P.Pos(c.Pos()), "the view of the pooled buffer is only handed to calls while the buffer is owned",
+				"the byte view of a pooled encoder buffer "+bad+": after Free any logging goroutine reuses the buffer, so the line being written to a slow client is overwritten with another entry (entries missing or corrupted in the dump, and a data race)")
+		})
+	}
+	if n < 1 {
+		r.Anchor(rule, fmt.Errorf("unresolved anchor: no Bytes() view of an encoder buffer found in core/logging"))
+	}
+}
+
+// whoFilter: every entry a logger accepts reaches the in-memory core: the cores
+// are combined by a plain Tee and the package puts no sampling or level-raising
+// core in front of it (zap's sampler drops entries that repeat a message more
+// than N times per tick - the buffer would no longer hold the most recent
+// entries written).
+func whoFilter(r *engine.Run, rule string) {
+	tee := 0
+	bad := ""
+	for _, f := range funcsOfPkg(r, pkgLog) {
+		engine.Instrs(f, func(in ssa.Instruction) {
+			c, ok := in.(ssa.CallInstruction)
+			if !ok {
+				return
+			}
+			sc := c.Common().StaticCallee()
+			if sc == nil || sc.Pkg == nil {
+				return
+			}
+			p := sc.Pkg.Pkg.Path()
+			if !strings.HasPrefix(p, "go.uber.org/zap") {
+				return
+			}
+			switch {
+			case sc.Name() == "NewTee":
+				tee++
+			case strings.HasPrefix(sc.Name(), "NewSampler"), sc.Name() == "NewIncreaseLevelCore", sc.Name() == "IncreaseLevel", sc.Name() == "NewLazyWith":
+				bad = sc.Name() + " at " + r.P.Pos(in.Pos())
+			}
+		})
+	}
+	if tee < 1 {
+		r.Anchor(rule, fmt.Errorf("unresolved anchor: the Tee that feeds the in-memory core"))
+		return
+	}
+	r.Check(bad == "", rule, "core/logging|cores combined by a plain Tee", "core/logging/logger.go", "no sampling or level-raising core is built in the package",
+		"the package builds a filtering core ("+bad+"): entries that the sampler drops never reach the in-memory core, so the buffer does not hold the most recent entries written (a burst of one message leaves 1 in N)")
 }
